@@ -21,7 +21,7 @@ class Check:
         self.pending = []      # (Violation, evaluator name)
         self.reported_sigs = set()
         self.exit_code = 0
-        self.deadline = time.time() + float(os.environ.get('VERIF_BUDGET_S', '150' if tier == 'quick' else '1500'))
+        self.deadline = time.time() + float(os.environ.get('VERIF_BUDGET_S', '150' if tier == 'quick' else '900'))
         self.rng = random.Random(seed)
         self.max_gate = 6 if tier == 'quick' else 14
     def time_left(self):
